@@ -14,6 +14,8 @@
 //  4. E.Lock() / E.Unlock() -> vsLock("<fn>:lock#k", E) / vsUnlock("<fn>:unlock#k", E)  (scheduler-aware)
 //  5. gopool.Go(f) -> vsGo("<fn>:go#k", f);  X.Wait() on a field named asyncGoroutineWg -> vsWgWait(label, &X)
 //     X.Add(n)/X.Done() on asyncGoroutineWg -> vsWgAdd(&X, n) / vsWgAdd(&X, -1)
+//  7. functions listed under "entry" (need not be in "funcs"): vsEntry("<fn>", <first parameter>) as first statement
+//  6. in functions listed under "preSelect": vsYield("<fn>:select#k") in front of every select statement
 package main
 
 import (
@@ -36,6 +38,11 @@ type fileCfg struct {
 	RecvIndex []string `json:"recvIndex"`
 	// NoLock: functions (subset of funcs) whose Lock/Unlock calls are left alone
 	NoLock []string `json:"noLock"`
+	// PreSelect: functions (subset of funcs) in which a scheduling point "<fn>:select#k" is put in front of every select
+	PreSelect []string `json:"preSelect"`
+	// Entry: functions (need not be in funcs) whose body starts with vsEntry("<fn>", <first parameter>) - an observation
+	// hook for the harness (no scheduling point)
+	Entry []string `json:"entry"`
 }
 
 type config struct {
@@ -51,6 +58,7 @@ type rewriter struct {
 	tmpCount  int
 	report    *[]string
 	recvIndex map[string]bool
+	preSelect bool
 }
 
 func main() {
@@ -83,9 +91,17 @@ func main() {
 		for _, fn := range fc.NoLock {
 			noLock[fn] = true
 		}
+		preSel := map[string]bool{}
+		for _, fn := range fc.PreSelect {
+			preSel[fn] = true
+		}
 		ri := map[string]bool{}
 		for _, t := range fc.RecvIndex {
 			ri[t] = true
+		}
+		entry := map[string]bool{}
+		for _, fn := range fc.Entry {
+			entry[fn] = true
 		}
 		found := map[string]bool{}
 		for _, d := range f.Decls {
@@ -99,18 +115,24 @@ func main() {
 				full = rt + "." + fd.Name.Name
 			}
 			if !(want[full] || (rt != "" && want[rt+".*"])) {
+				if entry[full] {
+					addEntry(fd, full, &report)
+				}
 				continue
 			}
 			found[full] = true
 			if rt != "" {
 				found[rt+".*"] = true
 			}
-			rw := &rewriter{fset: fset, fn: full, report: &report, recvIndex: ri, doLocks: !noLock[full]}
+			rw := &rewriter{fset: fset, fn: full, report: &report, recvIndex: ri, doLocks: !noLock[full], preSelect: preSel[full]}
 			if ri[rt] {
 				rw.recv = rn
 			}
 			rw.block(fd.Body)
 			report = append(report, fmt.Sprintf("%s: %d scheduling points", full, rw.counter))
+			if entry[full] {
+				addEntry(fd, full, &report)
+			}
 		}
 		for fn := range want {
 			if !found[fn] {
@@ -137,6 +159,18 @@ func main() {
 	res := map[string]interface{}{"replace": replace, "report": report}
 	enc, _ := json.Marshal(res)
 	fmt.Println(string(enc))
+}
+
+// addEntry puts vsEntry("<fn>", <first parameter>) at the start of the body
+func addEntry(fd *ast.FuncDecl, full string, report *[]string) {
+	if fd.Type.Params == nil || len(fd.Type.Params.List) == 0 || len(fd.Type.Params.List[0].Names) == 0 {
+		*report = append(*report, "WARNING: entry hook needs a named first parameter: "+full)
+		return
+	}
+	call := &ast.ExprStmt{X: &ast.CallExpr{Fun: ast.NewIdent("vsEntry"), Args: []ast.Expr{
+		&ast.BasicLit{Kind: token.STRING, Value: fmt.Sprintf("%q", full)}, ast.NewIdent(fd.Type.Params.List[0].Names[0].Name)}}}
+	fd.Body.List = append([]ast.Stmt{call}, fd.Body.List...)
+	*report = append(*report, full+": entry hook")
 }
 
 func fatal(err error) {
@@ -246,6 +280,9 @@ func (r *rewriter) stmt(s ast.Stmt) []ast.Stmt {
 		for _, c := range n.Body.List {
 			cc := c.(*ast.CommClause)
 			cc.Body = r.stmts(cc.Body)
+		}
+		if r.preSelect {
+			return []ast.Stmt{r.yieldStmt("select"), n}
 		}
 		return []ast.Stmt{n}
 	case *ast.LabeledStmt:
